@@ -394,6 +394,13 @@ pub fn run_shard(
         for l in &ctx.labels {
             *stats.labels.entry(l.clone()).or_insert(0) += 1;
         }
+        for (k, c) in &ctx.skips {
+            *stats.skips.entry(k.clone()).or_insert(0) += c;
+        }
+        for (k, c) in &ctx.maxima {
+            let e = stats.maxima.entry(k.clone()).or_insert(0);
+            *e = (*e).max(*c);
+        }
         for (case, vs) in fails {
             let mut unknown = vec![];
             for v in vs {
